@@ -66,7 +66,12 @@ class PropertyRun:
         self.explanation = ''
 
     # -- intake -----------------------------------------------------------------------------
-    def add_function_report(self, rep, contract=None, replayer=None):
+    def add_function_report(self, rep, contract=None, replayer=None, select=None):
+        """select(name) -> bool: which obligations of the report belong to this property (clauses tagged with another
+        property's id are that property's business); default: all"""
+        if select is not None:
+            rep = dict(rep)
+            rep['obligations'] = [o for o in rep.get('obligations', []) if select(o['name'])]
         self.functions.append(rep)
         if rep.get('error'):
             self.errors.append(f"{rep['function']}: {rep['error'][-600:]}")
@@ -171,7 +176,7 @@ class PropertyRun:
             'backends': self.backends,
             'solver_seconds': round(self.solver_s, 3),
             'functions_under_contract': [
-                {'function': r['function'], 'paths': r.get('paths', 0), 'obligations': len(r.get('obligations', [])),
+                {'function': r['function'] + r.get('case', ''), 'paths': r.get('paths', 0), 'cached': bool(r.get('cached')), 'obligations': len(r.get('obligations', [])),
                  'discharged': sum(1 for o in r.get('obligations', []) if o['verdict'] == 'unsat'),
                  'wall_s': r.get('wall_s'), 'out_of_reach': r.get('out_of_reach')}
                 for r in self.functions],
